@@ -1,9 +1,38 @@
-(* C04 - placeholder replaced by the real statements (kept compiling at every commit). *)
-From Coq Require Import ZArith List.
-From Verif Require Import Num.Amount Calc.Doc Calc.Calc Calc.Symmetry.
+(* C04 - Calculation is a deterministic fixpoint and serialisation is lossless.
+   Property theorems only (proofs in Calc/FixpointProofs.v).  `as_input d` (Calc/Symmetry.v) is the
+   document a reader gets back from the serialised result of `calculate d`: stored prices are the
+   converted prices, stored discount / charge / advance / due amounts are the PRESENTED amounts.
+   Partial: the theorem covers the modelled calculation core; serialisation of whole documents,
+   normalisers and map-order independence are covered by iteration of the implementation
+   (tools/props/c04.py), the leaf codecs by C06, read-only envelope operations by C10. *)
+From Coq Require Import ZArith List Bool.
+From Verif Require Import Base.Wire Num.Amount Calc.Doc Calc.Calc Calc.Symmetry Calc.CurrencySpec Calc.FixpointProofs.
 Import ListNotations.
 Open Scope Z_scope.
-(* the fixpoint statement is false when a fixed amount carries more decimals than it is presented with *)
+
+(* fixpoint_doc_wf d = the 'currency' rule applies; items priced in the document currency declare its
+   subunits; fixed advance amounts and an external rounding are at the currency's precision; a document
+   discount / charge without percentage has no base. *)
+Theorem calc_fixpoint_currency_rule d d1 :
+  fixpoint_doc_wf d -> as_input d = Some d1 -> calculate d1 = calculate d.
+Proof. exact (calc_fixpoint_currency d d1). Qed.
+Print Assumptions calc_fixpoint_currency_rule.
+
+(* sub-lines and row amounts re-read to themselves under BOTH rules *)
+Theorem subline_fixpoint cr c cur rates sl sc :
+  CurrencySpec.item_wf cur c (sl_item sl) -> calc_sub cr c cur rates sl = Some sc ->
+  calc_sub cr c cur rates (sub_as_input c sl sc) = Some sc.
+Proof. exact (calc_sub_fix cr c cur rates sl sc). Qed.
+Print Assumptions subline_fixpoint.
+
+Theorem row_amount_fixpoint cr c sum qty ch d :
+  ldc_amount cr c sum qty ch (ldc_as_input c d (ldc_amount cr c sum qty ch d)) = ldc_amount cr c sum qty ch d.
+Proof. exact (ldc_amount_fix cr c sum qty ch d). Qed.
+Print Assumptions row_amount_fixpoint.
+
+(* FULL STATEMENT (false of the faithful model, hence of the code): for every d under either rule,
+   as_input d = Some d1 -> calculate d1 = calculate d.  Refuted under 'precise' by a fixed amount with
+   more decimals than it is presented with (known finding C04-excess-decimals-feed-back): *)
 Theorem calc_fixpoint_refuted : exists d d1, as_input d = Some d1 /\ calculate d1 <> calculate d.
 Proof.
   exists (mkDoc 2 false [] 1
@@ -12,3 +41,19 @@ Proof.
   eexists. split; [vm_compute; reflexivity|]. vm_compute. discriminate.
 Qed.
 Print Assumptions calc_fixpoint_refuted.
+
+(* non-vacuity of the fixpoint theorem: ties, a fixed discount with excess decimals (rounded by the
+   currency rule before use), a rate charge, a tax and an advance *)
+Example fixpoint_hypotheses_are_satisfiable :
+  let d := mkDoc 2 true [] 1
+             [mkLine (mkA 15 1) (mkItem (mkA 1005 2) None []) []
+                     [mkLdc (mkA 1005 3) None None None None]
+                     [mkLdc (mkA 0 0) None None (Some (mkA 125 3)) (Some (mkA 3 0))]
+                     [mkCombo [] [] [] (Some (mkA 210 3)) None false []]]
+             [mkDdc (mkA 100 2) None None []] [] [] [mkProw (mkA 100 2) None] [] None in
+  fixpoint_doc_wf d /\ exists d1 t, as_input d = Some d1 /\ calculate d = Totals t /\ calculate d1 = Totals t.
+Proof.
+  cbv zeta. split.
+  - unfold fixpoint_doc_wf, currency_doc_wf, line_items_wf, ddc_fixed_ok. cbn. repeat split; repeat constructor; cbn; intros; auto.
+  - eexists. eexists. split; [vm_compute; reflexivity|]. split; vm_compute; reflexivity.
+Qed.
